@@ -30,11 +30,44 @@ pub struct Rec {
     pub shape: Vec<usize>,
 }
 
-pub trait El: Num + NumCast + PartialOrd + Copy + Debug + Send + ToPrimitive + 'static {}
-impl El for f64 {}
-impl El for f32 {}
-impl El for i32 {}
-impl El for i64 {}
+pub trait El: Num + NumCast + PartialOrd + Copy + Debug + Send + ToPrimitive + 'static {
+    /// the next representable value above
+    fn just_above(self) -> Self;
+    /// the negative zero of the type, if it has one
+    fn neg_zero() -> Option<Self>;
+}
+impl El for f64 {
+    fn just_above(self) -> Self {
+        self.next_up()
+    }
+    fn neg_zero() -> Option<Self> {
+        Some(-0.0)
+    }
+}
+impl El for f32 {
+    fn just_above(self) -> Self {
+        self.next_up()
+    }
+    fn neg_zero() -> Option<Self> {
+        Some(-0.0)
+    }
+}
+impl El for i32 {
+    fn just_above(self) -> Self {
+        self + 1
+    }
+    fn neg_zero() -> Option<Self> {
+        None
+    }
+}
+impl El for i64 {
+    fn just_above(self) -> Self {
+        self + 1
+    }
+    fn neg_zero() -> Option<Self> {
+        None
+    }
+}
 
 fn el<T: El>(v: f64) -> T {
     NumCast::from(v).expect("alphabet value representable")
@@ -51,13 +84,20 @@ fn data_shape(nd: usize, two_d: bool, variant: u8) -> Vec<usize> {
     s
 }
 
-fn mk_data<T: El>(shape: &[usize]) -> ArrayD<T> {
+fn mk_data<T: El>(shape: &[usize], variant: u8) -> ArrayD<T> {
     let mut c = 0.0;
-    ArrayD::from_shape_fn(IxDyn(shape), |_| {
+    let mut d = ArrayD::from_shape_fn(IxDyn(shape), |_| {
         c += 1.0;
         // integers: multiples of 4 so that halves and quarters stay integral
         el::<T>(((c * 7.0) % 13.0) * 4.0 - 8.0)
-    })
+    });
+    // variant 3: the samples at the first knot (which lies at 0) are negative zeros
+    if variant == 3 {
+        if let Some(nz) = T::neg_zero() {
+            d.index_axis_mut(ndarray::Axis(0), 0).fill(nz);
+        }
+    }
+    d
 }
 
 /// query values (exactly representable in every element type) in the runtime shape that
@@ -77,9 +117,23 @@ fn query_vals<T: El>(dq: &str, hi: f64, salt: usize, variant: u8) -> Vec<T> {
     let m = if dq == "Ix0" { 1 } else { 5 };
     let mut v: Vec<T> = (0..m).map(|i| el::<T>(all[(i + salt) % all.len()].min(hi))).collect();
     // variants 1, 2: one element (not the last one of a batch) is out of range
-    if variant >= 1 && salt == 0 {
+    if (variant == 1 || variant == 2) && salt == 0 {
         let p = if m > 1 { 1 } else { 0 };
         v[p] = el::<T>(-5.0);
+    }
+    // variant 3: both zeros next to each other (they compare equal but are different queries)
+    if variant == 3 {
+        if let Some(nz) = T::neg_zero() {
+            let pat = [el::<T>(0.0), nz, el::<T>(0.0), nz, el::<T>(1.0)];
+            for (i, e) in v.iter_mut().enumerate() {
+                *e = pat[(i + salt) % 5];
+            }
+        }
+    }
+    // variant 4: one element misses the upper end of the range by the smallest possible amount
+    if variant == 4 && salt == 0 {
+        let p = if m > 1 { 1 } else { 0 };
+        v[p] = el::<T>(hi).just_above();
     }
     v
 }
@@ -117,7 +171,7 @@ macro_rules! inst1 {
         pub fn $name(variant: u8) -> Rec {
             let nd = nd_of(stringify!($d), false);
             let shape = data_shape(nd, false, variant);
-            let data = mk_data::<$t>(&shape).into_dimensionality::<$d>().expect("data rank");
+            let data = mk_data::<$t>(&shape, variant).into_dimensionality::<$d>().expect("data rank");
             let x: Array1<$t> = (0..shape[0]).map(|i| el::<$t>(i as f64)).collect();
             let qv = query_vals::<$t>(stringify!($dq), (shape[0] - 1) as f64, 0, variant);
             let qs = query_shape(stringify!($dq), qv.len());
@@ -162,7 +216,7 @@ macro_rules! inst2 {
         pub fn $name(variant: u8) -> Rec {
             let nd = nd_of(stringify!($d), true);
             let shape = data_shape(nd, true, variant);
-            let data = mk_data::<$t>(&shape).into_dimensionality::<$d>().expect("data rank");
+            let data = mk_data::<$t>(&shape, variant).into_dimensionality::<$d>().expect("data rank");
             let x: Array1<$t> = (0..shape[0]).map(|i| el::<$t>(i as f64)).collect();
             let y: Array1<$t> = (0..shape[1]).map(|i| el::<$t>(i as f64 * 2.0)).collect();
             let qxv = query_vals::<$t>(stringify!($dq), (shape[0] - 1) as f64, 0, variant);
@@ -234,8 +288,11 @@ fn body(ctx: &Ctx) -> (Summary, Meta) {
     let sum = run_jobs(ctx, "instantiations", &jobs, |&i| TABLE[i].0.to_string(), |&i| {
         let (name0, kind, d, dq, s, t, f) = TABLE[i];
         let mut out = JobOut::default();
-      for variant in 0u8..3 {
-        let name = format!("{name0}{}", ["", ":one-element-out-of-range", ":zero-lane-data+out-of-range"][variant as usize]);
+      for variant in 0u8..5 {
+        if variant == 3 && (t == "i32" || t == "i64") {
+            continue; // no signed zero
+        }
+        let name = format!("{name0}{}", ["", ":one-element-out-of-range", ":zero-lane-data+out-of-range", ":signed-zeros", ":one-element-just-above-the-range"][variant as usize]);
         let name = name.as_str();
         let r = f(variant);
         out.evals += 1;
@@ -269,7 +326,7 @@ fn body(ctx: &Ctx) -> (Summary, Meta) {
         // a failed type-identity assertion inside cast_unchecked surfaces as a panic
         for (what, res) in [("interp_array", &r.batch), ("interp_array_into", &r.batch_into)] {
             if let Err(p) = res {
-                if variant >= 1 && !p.contains("cast_unchecked") && !p.contains("panicked") && p.contains("not in range") {
+                if variant >= 1 && variant != 3 && !p.contains("cast_unchecked") && !p.contains("panicked") && p.contains("not in range") {
                     continue; // the expected OutOfBounds error
                 }
                 let is_cast = p.contains("cast_unchecked between different types");
@@ -301,7 +358,7 @@ fn body(ctx: &Ctx) -> (Summary, Meta) {
                 out.violate(format!("{name}:vs-into"), "interp_array differs from interp_array_into".to_string(), case());
             }
         }
-        if variant >= 1 {
+        if variant >= 1 && variant != 3 {
             // with an out-of-range element all paths must agree on the verdict (message included)
             let v = |x: &Result<Vec<u64>, String>| x.as_ref().map(|_| ()).map_err(|e| e.clone());
             if v(&r.batch) != v(&r.singles) || v(&r.batch) != v(&r.general) || v(&r.batch) != v(&r.batch_into) {
@@ -321,7 +378,7 @@ fn body(ctx: &Ctx) -> (Summary, Meta) {
         out
     });
     let meta = Meta {
-        rule: "every instantiation of {data Ix1..Ix6, IxDyn} x {query Ix0, Ix1, Ix2 (m,1), Ix3 (1,m,1), IxDyn of runtime rank 1} x {owned, view, shared storage of data, axes and queries; in 2-D xs and ys (and x, y) get different storage kinds} x {f64, f32, i32, i64} x {Interp1D, Interp2D} is executed with Linear / Bilinear. The hook inside cast_unchecked asserts type_name / size / align equality on every executed cast and counts them: 2 (Interp1D) / 3 (Interp2D) casts iff the static query type is Ix1, 0 otherwise, for interp_array and interp_array_into alike; outputs of the fast path, of element-wise interp and of the general path (dynamic rank-1 query) are bit-identical. Each instantiation is run three times: all queries in range; one (not the last) element out of range; data with a zero-length last trailing axis plus an out-of-range element - the verdicts (Ok / the OutOfBounds message) of all paths must agree. Non-trivial = instantiation whose static query type is Ix1 (the cast is executed).".into(),
+        rule: "every instantiation of {data Ix1..Ix6, IxDyn} x {query Ix0, Ix1, Ix2 (m,1), Ix3 (1,m,1), IxDyn of runtime rank 1} x {owned, view, shared storage of data, axes and queries; in 2-D xs and ys (and x, y) get different storage kinds} x {f64, f32, i32, i64} x {Interp1D, Interp2D} is executed with Linear / Bilinear. The hook inside cast_unchecked asserts type_name / size / align equality on every executed cast and counts them: 2 (Interp1D) / 3 (Interp2D) casts iff the static query type is Ix1, 0 otherwise, for interp_array and interp_array_into alike; outputs of the fast path, of element-wise interp and of the general path (dynamic rank-1 query) are bit-identical. Each instantiation is run five times: all queries in range; one (not the last) element out of range; data with a zero-length last trailing axis plus an out-of-range element; +0.0 and -0.0 queries next to each other on data whose first-knot samples are -0.0 (float types); one element one ulp (one unit) above the last knot - the verdicts (Ok / the OutOfBounds message) of all paths must agree. Non-trivial = instantiation whose static query type is Ix1 (the cast is executed).".into(),
         bounds: format!("{} instantiations (the whole finite table)", TABLE.len()),
         assumptions: vec!["type_name equality is a monitor for type identity, not a UB detector".into()],
         extra: vec![],
